@@ -25,5 +25,13 @@ CHECKS = {
    note="Trusted: TLC, iotrace.so recorder (checked per run: replaying the recorded payloads must reproduce the final image), the classification rule (bytes beyond the old filesystem end are not "
         "part of the filesystem; superblock-internal writes other than s_state are not modifications). 32/64-bit conversion (-b/-s) not exercised yet.",
    technique="TLA+ device/crash model checked with TLC + trace validation of recorded resize2fs write streams; fault enumeration of crash images on the real e2fsck"),
+ "C14": dict(level="other",
+   text="Partially decided by the specification (DESIGN.md section 6). (c) The CRC primitives are written in TLA+ as their bit-serial definitions (Crc.tla) and TLC compares the real library's results "
+        "with them for every length 0..48 (64 thorough) x alignment 0..7 x 4 content patterns x 3 algorithms. (a) 'every object carries the format's checksum' is the conjunct Csums of "
+        "Ext4Abs.Consistent evaluated by TLC on projections of tool-produced images, with the recomputation done by the independent reader. (b) covered-byte flips of live metadata objects must be "
+        "detected by e2fsck -fn and the library (fault enumeration guided by the reader's location map).",
+   note="Level 'other' because the decisive recomputation for clause (a) sits in the observation layer (python reader), TLA+ only states the invariant; CRC reference limited to short buffers "
+        "(TLC cannot fold kilobytes). Truncated (16-bit) checksum collisions are excluded from clause (b) obligations.",
+   technique="TLA+ bit-serial CRC definitions evaluated by TLC against the library; Consistent.Csums on projected images; spec-guided fault enumeration"),
 }
 NA = {}
